@@ -40,6 +40,7 @@ typedef struct {
   /* timers profile */
   int conn_sit, srv_sit, offset_us, burst, second_client, idle_after_timeout;
   int backoff; /* busy connection whose outstanding query is in a backed-off attempt (deadline far away) */
+  int busy_traffic; /* answered requests re-issued from their callbacks keep the event thread busy without a pause while one request gets no answer */
   int signals;      /* a periodic signal with a (restarting) handler lands in the library's threads: waits come back with EINTR */
   int long_timeout; /* one silent query with a per-try timeout above one second (seconds part of the back end's sleep) */
 } et_cfg_t;
@@ -113,6 +114,8 @@ static _Atomic int  et_nwaits;
 #define ET_STATUS_MAX 32
 static _Atomic uint64_t et_cb_by_status[ET_STATUS_MAX];
 static _Atomic uint64_t et_cb_total, et_cb_on_lib, et_cb_chained, et_cb_late_total, et_cb_cancel_then_chain;
+static _Atomic int      et_perpetual_stop; /* busy-traffic scenario: stop re-issuing */
+static _Atomic uint64_t et_perpetual_issued;
 
 typedef struct {
   int      kind;
@@ -201,6 +204,29 @@ static void et_cb_nameinfo(void *arg, int status, int timeouts, char *node, char
   (void)node;
   (void)service;
   et_cb_common((et_req_t *)arg, status);
+}
+
+/* busy-traffic scenario: answered questions asked again from their own callbacks, without a slot in the request table
+ * (there are tens of thousands of them); only counted */
+static _Atomic int et_perp_outstanding;
+static void        et_perp_issue(intptr_t k);
+static void et_cb_perp(void *arg, ares_status_t status, size_t timeouts, const ares_dns_record_t *rec)
+{
+  (void)timeouts;
+  (void)rec;
+  atomic_fetch_sub(&et_perp_outstanding, 1);
+  atomic_fetch_add_explicit(&et_progress, 1, ET_RELAX);
+  if (status != ARES_EDESTRUCTION && status != ARES_ECANCELLED && !atomic_load(&et_closing) && !atomic_load(&et_perpetual_stop)) {
+    et_perp_issue((intptr_t)arg);
+  }
+}
+static void et_perp_issue(intptr_t k)
+{
+  char nm[40];
+  snprintf(nm, sizeof(nm), "ok%d.ex.test", (int)(k % 8));
+  atomic_fetch_add(&et_perp_outstanding, 1);
+  atomic_fetch_add_explicit(&et_perpetual_issued, 1, ET_RELAX);
+  ares_query_dnsrec(et_channel, nm, ARES_CLASS_IN, ARES_REC_TYPE_A, et_cb_perp, (void *)k, NULL);
 }
 
 /* ---------- request generation ---------- */
@@ -1070,7 +1096,8 @@ static void et_check_slept_through(int64_t now)
   if (overloaded) {
     atomic_fetch_add_explicit(&et_n_readable_overload, 1, ET_RELAX);
   }
-  if (overloaded || atomic_load(&et_dup_live) != 0 || atomic_load(&et_closing)) {
+  if (overloaded || atomic_load(&et_dup_live) != 0 || atomic_load(&et_closing) || et_cfg.busy_traffic) {
+    /* (busy-traffic scenario: datagrams arrive all the time, "readable since" says nothing about one datagram) */
     ET_LOCK(&et_net_mu);
     for (i = 0; i < ET_MAX_PEERS; i++) {
       et_peers[i].readable_since = 0;
